@@ -1,12 +1,88 @@
 (* Tree/Load.v — model of AutosarModel::load_buffer_internal, merge_file_data, merge_element, calc_identifiables_merge,
    calc_element_merge, import_new_items, merge_sub_elements (autosarmodel.rs): the parsed element tree
    (Xml/Parser.v `load`) is installed into the heap and merged into the model.
-   STUB: the interface below is fixed (Tree/Script2.v and the drivers use it); the bodies are placeholders.
+
+   Load-temporary nodes (DESIGN.md section 5).  The incoming tree is built by the parser as ordinary elements; the ones
+   that merge_element does not import (the incoming root, every container merged into an existing element, and whatever
+   the failed-merge rollback deletes again) are owned by load_buffer_internal alone and are dropped when it returns:
+   no handle to them can exist, every WeakElement that still names them (reference_origins gets one for EVERY reference
+   of the incoming file, identifiables may) is dead from then on.  The model keeps such a node allocated but turns it
+   into a `dead` node at the end of the load: detached (parent PNone), no sub-elements listed, membership = [DEAD].
+   Operations that walk the index lists treat every id alike (the Rust skips dead weak references, the model mutates a
+   dead node nobody can see); the two places where the Rust OBSERVES liveness — `upgrade()` in get_element_by_path /
+   the overlap check, and in check_references — are modelled by `is_dead` (queries `q_*_live` below).
+   The ArxmlFile object of a load that fails after the parse is dropped as well, but elements may keep its weak
+   reference in their file_membership set (a probed defect): the model renames such a file id to a fresh dead id
+   (>= 2^16, never an index into w_files) and takes the file record out of w_files again.
    MODEL ONLY: definitions, no proofs. *)
 From AV Require Import Base.Bytes Base.Outcome Hash.HashModel Tree.Heap Tree.Ops.
 From AV Require Xml.Lexer Xml.Parser.
 Open Scope string_scope.
+Open Scope list_scope.
 Open Scope N_scope.
+
+(* ------------------------------------------------------------------ installing a parsed tree *)
+Definition to_hc (d : Parser.cdata) : cdata :=
+  match d with
+  | Parser.DEnum e => DEnum e | Parser.DString s => DString s | Parser.DUInt n => DUInt n | Parser.DFloat b => DFloat b
+  end.
+
+(* the node ids given to a parsed tree, in the shape of its content lists (None = a character data item) *)
+Inductive itree := INode (i : id) (kids : list (option itree)).
+Definition it_id (t : itree) : id := match t with INode i _ => i end.
+
+(* ElementRaw{..}.wrap() for every element of the tree, parent links as the parser sets them (root: None) *)
+Fixpoint install (parent : pref) (e : Parser.etree) {struct e} : W itree :=
+  match e with
+  | Parser.ENode name ty attrs content comment =>
+    (do i <- alloc (mkNode parent name ty [] (map (fun a => (fst a, to_hc (snd a))) attrs) [] comment);
+     do '(items, kids) <-
+       (fix go (l : list (Parser.etree + Parser.cdata)) : W (list citem * list (option itree)) :=
+          match l with
+          | [] => wret ([], [])
+          | inl c :: r => do t <- install (PElem i) c; do '(cs, ts) <- go r; wret (CElem (it_id t) :: cs, Some t :: ts)
+          | inr d :: r => do '(cs, ts) <- go r; wret (CData (to_hc d) :: cs, None :: ts)
+          end) content;
+     modify_node i (fun x => set_content x items);;
+     wret (INode i kids))%W
+  end.
+
+(* the element a parser position (child indices from the root, counting every content item) denotes *)
+Fixpoint it_at (t : itree) (pos : list nat) {struct pos} : option id :=
+  match pos with
+  | [] => Some (it_id t)
+  | k :: r => match t with INode _ kids => match nth_error kids k with Some (Some c) => it_at c r | _ => None end end
+  end.
+
+(* ------------------------------------------------------------------ dead nodes and dead files *)
+(* Bound of the encoding: fewer than 65535 ArxmlFile objects are ever created in one world.  (The ids must stay small:
+   Ops.min_version converts every member of a membership set with N.to_nat.) *)
+Definition DEAD : N := 65535.                           (* membership marker of a dead node: never a file id *)
+Definition DEAD_FILE_BASE : N := 65536.                 (* dead file ids are >= 2^16 *)
+Definition is_dead (n : node) : bool := match n_files n with [x] => x =? DEAD | _ => false end.
+Definition node_dead (w : world) (i : id) : bool := match w_nodes w i with Some n => is_dead n | None => true end.
+
+Definition cdata_only (l : list citem) : list citem :=
+  filter (fun it => match it with CData _ => true | CElem _ => false end) l.
+Definition kill (n : node) : node := mkNode PNone (n_name n) (n_type n) (cdata_only (n_content n)) (n_attrs n) [DEAD] (n_comment n).
+
+Fixpoint n_range (k : nat) (from : N) : list N := match k with O => [] | S k' => from :: n_range k' (from + 1) end.
+
+(* every node allocated in [from, w_next) that is not listed in `keep` becomes a dead node *)
+Definition kill_unreachable (from : id) (keep : list id) : W unit :=
+  fun w =>
+    let ids := n_range (N.to_nat (w_next w - from)) from in
+    let nodes := fold_left (fun f i => if existsb (N.eqb i) keep then f
+                                       else match f i with Some n => upd f i (kill n) | None => f end) ids (w_nodes w) in
+    Val (OK tt, mkWorld nodes (w_next w) (w_files w) (w_models w)).
+
+(* the file object `f` (the LAST record of w_files) is dropped: references that are left in membership sets become dead *)
+Definition rename_file (f d : N) (n : node) : node :=
+  if set_mem f (n_files n) then set_files n (set_add d (set_remove f (n_files n))) else n.
+Definition drop_file (f : N) : W unit :=
+  fun w =>
+    let d := DEAD_FILE_BASE + w_next w in
+    Val (OK tt, mkWorld (fun i => option_map (rename_file f d) (w_nodes w i)) (w_next w) (removelast (w_files w)) (w_models w)).
 
 Section Load.
 Variable T : tables.
@@ -16,8 +92,346 @@ Variable float_parse : list N -> option N.
 Variable LATEST : N.
 Variable name_definition_ref : N.
 
+(* run a read-only computation at a fixed world *)
+Definition rd {A} (m : W A) (w : world) : res A :=
+  match m w with
+  | Val (OK a, _) => Val a
+  | Val (ER _, _) => Pan "Load.rd: a read-only accessor returned an error"
+  | Pan s => Pan s
+  | Fuel => Fuel
+  end.
+
+(* ------------------------------------------------------------------ what merge_element looks at in a sub-element *)
+Record ckey := mkKey {
+  k_id : id;
+  k_name : N;                                   (* element_name() *)
+  k_ident : res bool;                           (* is_identifiable() *)
+  k_item : res (option (list N));               (* item_name() *)
+  k_defref : res (option (list N));             (* get_sub_element(DefinitionRef).character_data().string_value() *)
+  k_idx : res (option (list N))                 (* parent_a.element_type().find_sub_element(element_name(), u32::MAX) indices *)
+}.
+
+Definition defref_of (n : node) : W (option (list N)) :=
+  (do dr <- first_named name_definition_ref (n_content n);
+   match dr with
+   | Some d => do dn <- get_node d;
+               do cd <- wl (character_data T dn);
+               wret (match cd with Some (DString s) => Some s | _ => None end)
+   | None => wret None
+   end)%W.
+
+Definition key_of (w : world) (pty : N * N) (i : id) : res ckey :=
+  match w_nodes w i with
+  | None => Pan "dangling node id"
+  | Some n =>
+    Val (mkKey i (n_name n) (rd (is_identifiable T n) w) (rd (item_name T n) w) (rd (defref_of n) w)
+               (let* r := find_sub_element T pty (n_name n) 4294967295 in Val (option_map snd r))%res)
+  end.
+
+Fixpoint keys_of (w : world) (pty : N * N) (l : list citem) : res (list ckey) :=
+  match l with
+  | [] => Val []
+  | CElem c :: r => (let* k := key_of w pty c in let* ks := keys_of w pty r in Val (k :: ks))%res
+  | CData _ :: r => keys_of w pty r
+  end.
+
+Inductive action := MergeEqual | MergeUnequal (b : id) | AOnly | BOnly (pos : N).
+
+Definition opt_bytes_eqb (a b : option (list N)) : bool :=
+  match a, b with None, None => true | Some x, Some y => bytes_eqb x y | _, _ => false end.
+
+(* parent_b.sub_elements().find(|e| e.element_name() == elem_a.element_name() && e.item_name() == elem_a.item_name()) *)
+Fixpoint find_sibling_item (name : N) (item : option (list N)) (lb : list ckey) : res (option id) :=
+  match lb with
+  | [] => Val None
+  | kb :: r =>
+    if k_name kb =? name then
+      (let* it := k_item kb in if opt_bytes_eqb it item then Val (Some (k_id kb)) else find_sibling_item name item r)%res
+    else find_sibling_item name item r
+  end.
+
+(* parent_b.sub_elements().filter(|e| e.element_name() == elem_a.element_name()).find(|e| defref(e) == defref_a) *)
+Fixpoint find_sibling_defref (name : N) (dr : option (list N)) (lb : list ckey) : res (option id) :=
+  match lb with
+  | [] => Val None
+  | kb :: r =>
+    if k_name kb =? name then
+      (let* d := k_defref kb in if opt_bytes_eqb d dr then Val (Some (k_id kb)) else find_sibling_defref name dr r)%res
+    else find_sibling_defref name dr r
+  end.
+
+(* calc_identifiables_merge *)
+Definition calc_identifiables_merge (all_b : list ckey) (ka kb : ckey) (splitable : bool) : res (out action) :=
+  (let* ia := k_item ka in
+   let* ib := k_item kb in
+   if opt_bytes_eqb ia ib then Val (OK MergeEqual) else
+   let* s := find_sibling_item (k_name ka) ia all_b in
+   match s with
+   | Some sib => Val (OK (MergeUnequal sib))
+   | None => if splitable then Val (OK AOnly) else Val (ER InvalidFileMerge)
+   end)%res.
+
+(* calc_element_merge *)
+Definition calc_element_merge (all_b : list ckey) (ka kb : ckey) : res action :=
+  (let* da := k_defref ka in
+   let* db := k_defref kb in
+   if opt_bytes_eqb da db then Val MergeEqual else
+   let* s := find_sibling_defref (k_name ka) da all_b in
+   Val (match s with Some sib => MergeUnequal sib | None => AOnly end))%res.
+
+(* the decision of one iteration of the while loop; pos_a = index of elem_a among the sub-elements of parent_a *)
+Definition merge_action (all_b : list ckey) (splitable : bool) (pos_a : N) (ka kb : ckey) : res (out action) :=
+  if k_name ka =? k_name kb then
+    (let* ident := k_ident ka in
+     if ident then calc_identifiables_merge all_b ka kb splitable
+     else let* a := calc_element_merge all_b ka kb in Val (OK a))%res
+  else
+    (let* ia := k_idx ka in
+     match ia with
+     | None => Pan "autosarmodel.rs merge_element: find_sub_element(elem_a.element_name(), u32::MAX).unwrap()"
+     | Some indices_a =>
+       let* ib := k_idx kb in
+       match ib with
+       | None => Pan "autosarmodel.rs merge_element: find_sub_element(elem_b.element_name(), u32::MAX).unwrap()"
+       | Some indices_b =>
+         Val (OK (match lex_cmp indices_a indices_b with Lt => AOnly | _ => BOnly pos_a end))
+       end
+     end)%res.
+
+Definition merged_b (merges : list (id * id)) (b : id) : bool := existsb (fun p => snd p =? b) merges.
+
+Record walked := mkWalked { wk_merge : list (id * id); wk_a_only : list id; wk_b_only : list (id * N) }.
+
+(* the positional two-pointer walk of merge_element, including the two loops that drain the iterator that is left.
+   elem_count = parent_a.content.len().  One unit of fuel per iteration (every iteration advances one side). *)
+Fixpoint walk (fuel : nat) (all_b : list ckey) (splitable : bool) (elem_count : N) (pos_a : N) (la lb : list ckey)
+         (acc : walked) {struct fuel} : res (out walked) :=
+  match fuel with
+  | O => Fuel
+  | S f =>
+    match la, lb with
+    | ka :: la', kb :: lb' =>
+      (let* act := merge_action all_b splitable pos_a ka kb in
+       match act with
+       | ER e => Val (ER e)
+       | OK MergeEqual =>
+         walk f all_b splitable elem_count (pos_a + 1) la' lb'
+              (mkWalked (wk_merge acc ++ [(k_id ka, k_id kb)]) (wk_a_only acc) (wk_b_only acc))
+       | OK (MergeUnequal other_b) =>
+         walk f all_b splitable elem_count (pos_a + 1) la' lb
+              (mkWalked (wk_merge acc ++ [(k_id ka, other_b)]) (wk_a_only acc) (wk_b_only acc))
+       | OK AOnly =>
+         walk f all_b splitable elem_count (pos_a + 1) la' lb
+              (mkWalked (wk_merge acc) (wk_a_only acc ++ [k_id ka]) (wk_b_only acc))
+       | OK (BOnly position) =>
+         walk f all_b splitable elem_count pos_a la lb'
+              (mkWalked (wk_merge acc) (wk_a_only acc)
+                        (if merged_b (wk_merge acc) (k_id kb) then wk_b_only acc else wk_b_only acc ++ [(k_id kb, position)]))
+       end)%res
+    | _, [] => Val (OK (mkWalked (wk_merge acc) (wk_a_only acc ++ map k_id la) (wk_b_only acc)))
+    | [], _ =>
+      Val (OK (mkWalked (wk_merge acc) (wk_a_only acc)
+                        (wk_b_only acc ++ map (fun kb => (k_id kb, elem_count))
+                                              (filter (fun kb => negb (merged_b (wk_merge acc) (k_id kb))) lb))))
+    end
+  end.
+
+(* min over the files that still exist; LATEST when there is none *)
+Definition files_min_version (w : world) (files : list N) : N :=
+  match flat_map (fun f => match nth_opt (w_files w) (N.to_nat f) with Some x => [f_version x] | None => [] end) files with
+  | [] => LATEST
+  | v :: r => fold_left N.min r v
+  end.
+
+(* for element in elements_a_only: if its membership is empty it becomes `files` *)
+Fixpoint restrict_a_only (l : list id) (files : list N) : W unit :=
+  match l with
+  | [] => wret tt
+  | e :: r => (modify_node e (fun x => if is_empty (n_files x) then set_files x files else x);; restrict_a_only r files)%W
+  end.
+
+(* import_new_items: `idx` elements have been inserted before *)
+Fixpoint import_new_items (parent_a : id) (l : list (id * N)) (idx : N) (new_file min_ver_b : N) : W unit :=
+  match l with
+  | [] => wret tt
+  | (new_element, insert_pos) :: r =>
+    (modify_node new_element (fun x => set_parent x (PElem parent_a));;
+     modify_node new_element (fun x => set_files x (set_add new_file (n_files x)));;
+     do ne <- get_node new_element;
+     do pa <- get_node parent_a;
+     do range <- wcatch (calc_element_insert_range T pa (n_name ne) min_ver_b);
+     match range with
+     | ER _ => wfail InvalidFileMerge
+     | OK (first_pos, last_pos) =>
+       let dest := N.min (N.max (insert_pos + idx) first_pos) last_pos in
+       content_insert parent_a dest (CElem new_element);;
+       import_new_items parent_a r (idx + 1) new_file min_ver_b
+     end)%W
+  end.
+
+(* merge_element + merge_sub_elements; one unit of fuel per level of the tree *)
+Fixpoint merge_element (fuel : nat) (parent_a : id) (files : list N) (parent_b : id) (new_file : N) {struct fuel} : W unit :=
+  match fuel with
+  | O => wfuel
+  | S fl =>
+    (do w <- wget;
+     do na <- get_node parent_a;
+     do nb <- get_node parent_b;
+     let pty := n_type na in
+     do la <- wl (keys_of w pty (n_content na));
+     do lb <- wl (keys_of w pty (n_content nb));
+     let min_ver_a := files_min_version w files in
+     let min_ver_b := match nth_opt (w_files w) (N.to_nat new_file) with Some x => f_version x | None => LATEST end in
+     let version := N.min min_ver_a min_ver_b in
+     do splitable <- wl (splittable_in T pty version);
+     do wk <- (fun w0 => match walk (S (List.length la + List.length lb)) lb splitable (N.of_nat (List.length (n_content na))) 0 la lb
+                                      (mkWalked [] [] []) with
+                         | Val o => Val (o, w0) | Pan s => Pan s | Fuel => Fuel end);
+     restrict_a_only (wk_a_only wk) files;;
+     import_new_items parent_a (wk_b_only wk) 0 new_file min_ver_b;;
+     (fix subs (l : list (id * id)) : W unit :=
+        match l with
+        | [] => wret tt
+        | (elem_a, elem_b) :: r =>
+          do ea <- get_node elem_a;
+          let files' := if negb (is_empty (n_files ea)) then n_files ea else files in
+          merge_element fl elem_a files' elem_b new_file;;
+          modify_node elem_a (fun x => if negb (is_empty (n_files x)) then set_files x (set_add new_file (n_files x)) else x);;
+          subs r
+        end) (wk_merge wk))%W
+  end.
+
+(* merge_file_data *)
+Definition merge_file_data (m : N) (new_root new_file : N) : W unit :=
+  (do x <- get_model m;
+   do w <- wget;
+   merge_element (fuel_of w) (m_root x) (fold_right set_add [] (m_files x)) new_root new_file;;
+   do x2 <- get_model m;
+   modify_node (m_root x2) (fun r => set_files r (set_add new_file (n_files r))))%W.
+
+(* identifiables.get(&key).and_then(WeakElement::upgrade) *)
+Definition ident_live (w : world) (x : model) (key : list N) : option id :=
+  match assoc_get key (m_idents x) with
+  | Some e => if node_dead w e then None else Some e
+  | None => None
+  end.
+
+(* the loop over parser.identifiables (oldest first) with the overlap check in the middle *)
+Fixpoint fill_identifiables (m : N) (t : itree) (l : list (list N * list nat)) : W unit :=
+  match l with
+  | [] => wret tt
+  | (key, pos) :: r =>
+    match it_at t pos with
+    | None => wpanic "Load: parser position does not denote an element"
+    | Some value =>
+      (do w <- wget;
+       do x <- get_model m;
+       match ident_live w x key with
+       | Some existing =>
+         do en <- get_node existing;
+         do vn <- get_node value;
+         if negb (n_name en =? n_name vn) then wfail OverlappingDataError else fill_identifiables m t r
+       | None => add_identifiable m key value;; fill_identifiables m t r
+       end)%W
+    end
+  end.
+
+Fixpoint fill_references (m : N) (t : itree) (l : list (list N * list nat)) : W unit :=
+  match l with
+  | [] => wret tt
+  | (refpath, pos) :: r =>
+    match it_at t pos with
+    | None => wpanic "Load: parser position does not denote an element"
+    | Some e => (add_reference_origin m refpath e;; fill_references m t r)%W
+    end
+  end.
+
+(* everything load_buffer_internal does after a successful parse_arxml; `base` = first node id of the incoming tree *)
+Definition load_parsed (m : N) (filename : list N) (root : Parser.etree) (st : Parser.pstate) : W N :=
+  (do w0 <- wget;
+   let base := w_next w0 in
+   do t <- install PNone root;
+   let root_element := it_id t in
+   let fid := N.of_nat (List.length (w_files w0)) in
+   do w1 <- wget;
+   wput (mkWorld (w_nodes w1) (w_next w1) (w_files w1 ++ [mkFile m filename (Parser.p_version st) (Parser.p_standalone st)]) (w_models w1));;
+   do x <- get_model m;
+   do r <- wcatch
+     ((if is_empty (m_files x) then
+         modify_node root_element (fun n => set_parent n (PModel m));;
+         modify_node root_element (fun n => set_files n (set_add fid (n_files n)));;
+         modify_model m (fun y => set_root y root_element)
+       else
+         do mr <- wcatch (merge_file_data m root_element fid);
+         match mr with
+         | OK _ => wret tt
+         | ER e => do x1 <- get_model m;
+                   do _ <- wtry (e_remove_from_file T (m_root x1) fid);
+                   wfail e
+         end);;
+      fill_identifiables m t (rev (Parser.p_idents st));;
+      fill_references m t (rev (Parser.p_refs st));;
+      modify_model m (fun y => set_mfiles y (m_files y ++ [fid])));
+   (* the function returns: local strong references are dropped *)
+   do x3 <- get_model m;
+   do w3 <- wget;
+   do keep <- dfs_ids (fuel_of w3) (m_root x3);
+   kill_unreachable base keep;;
+   match r with
+   | OK _ => wret fid
+   | ER e => drop_file fid;; wfail e
+   end)%W.
+
 (* AutosarModel::load_buffer(buffer, filename, strict) -> Ok (file id, warnings) | Err (LoadError for lexer/parser
    errors — the kind/line is compared by the XML checks —, DuplicateFilenameError, InvalidFileMerge, OverlappingDataError) *)
 Definition m_load_buffer (m : N) (buffer filename : list N) (strict : bool) : W (N * list Parser.perror) :=
-  let _ := (T, tab_el, tab_at, tab_en, check_fn, float_parse, LATEST, name_definition_ref) in wpanic "UNMODELLED: load_buffer".
+  (do x <- get_model m;
+   do w <- wget;
+   if existsb (fun f => match nth_opt (w_files w) (N.to_nat f) with Some fl => bytes_eqb (f_name fl) filename | None => false end)
+              (m_files x)
+   then wfail DuplicateFilenameError else
+   match Parser.load strict T tab_el tab_at tab_en check_fn float_parse buffer with
+   | Val (Parser.Ret root st) => do f <- load_parsed m filename root st; wret (f, rev (Parser.p_warnings st))
+   | Val (Parser.Raise _ _) => wfail LoadError
+   | Pan s => wpanic s
+   | Fuel => wfuel
+   end)%W.
+
+(* ------------------------------------------------------------------ liveness-aware queries (observation) *)
+(* AutosarModel::get_element_by_path: identifiables.get(path).and_then(upgrade) *)
+Definition q_get_by_path_live (m : N) (p : list N) : W (option id) :=
+  (do x <- get_model m; do w <- wget; wret (ident_live w x p))%W.
+
+(* AutosarModel::check_references with the upgrade() tests *)
+Definition q_check_references_live (m : N) : W (list id) :=
+  (do x <- get_model m;
+   do w <- wget;
+   (fix each (l : list (list N * list id)) : W (list id) :=
+      match l with
+      | [] => wret []
+      | (path, refs) :: rest =>
+        do r <- each rest;
+        match assoc_get path (m_idents x) with
+        | None => wret (refs ++ r)
+        | Some target =>
+          if node_dead w target then wret (refs ++ r) else
+          do tn <- get_node target;
+          do bad <- (fix chk (rl : list id) : W (list id) :=
+                       match rl with
+                       | [] => wret []
+                       | re :: rr =>
+                         do b <- chk rr;
+                         if node_dead w re then wret b else
+                         do rn <- get_node re;
+                         match attr_value rn (attr_dest T) with
+                         | Some (DEnum d) =>
+                           do ok <- wlift (verify_reference_dest T (n_type tn) d);
+                           wret (if ok then b else re :: b)
+                         | _ => wret (re :: b)
+                         end
+                       end) refs;
+          wret (bad ++ r)
+        end
+      end) (m_origins x))%W.
+
 End Load.
